@@ -23,6 +23,7 @@ ASSUMPTIONS = [
     "a browser resolves a scheme as the WHATWG URL parser does: strip leading/trailing C0-or-space, drop TAB/LF/CR, ASCII alpha then alnum/+/-/. then ':'",
     "'never url()' is read as: no url( function or url token that could load (a bad-url token loads nothing but is reported too)",
     "allow-lists are the filter's own arguments (defaults read from the module, restrictions generated); they define what is allowed",
+    "which attributes are URI-valued is pinned in the check (13 attributes incl. xlink:href and xml:base) unless the caller passes attr_val_is_uri; SVG animation value attributes (to/from/values/by) are not judged (DESIGN 9.5)",
 ]
 
 SCHEMES = ["javascript", "vbscript", "data", "livescript", "mocha", "http", "https", "mailto", "feed", "view-source", "jar",
